@@ -341,6 +341,15 @@ struct Maths {
     sz: usize,
 }
 
+/// a registered component one of whose fields cannot be serialised (`Instant` has no `ReflectSerialize`): `reflect_to_bin`
+/// returns an error for it, after having written the type path and the fields before it
+#[derive(Component, Reflect)]
+#[reflect(Component)]
+struct Unencodable {
+    secs: f32,
+    started: bevy::utils::Instant,
+}
+
 /// a type with a reflected, hand-written `Default` whose collections are NOT empty: a decoder that
 /// patches a default value instead of rebuilding the value keeps the default's leftovers
 #[derive(Component, Reflect, PartialEq, Debug, Clone)]
@@ -453,6 +462,7 @@ fn register(reg: &mut TypeRegistry) {
     r::<Handles>(reg);
     r::<Maths>(reg);
     r::<DefList>(reg);
+    reg.register::<Unencodable>();
     r::<bevy::pbr::CascadeShadowConfig>(reg);
     reg.register::<Vec<String>>();
     r::<Transform>(reg);
@@ -707,6 +717,15 @@ pub fn run(out: &mut Out, rng: &mut Rng, seed: u64, count: usize) {
     register(&mut reg);
     let mut skipped_shapes = std::collections::BTreeSet::new();
     for n in 0..count {
+        // now and then a value that cannot be encoded (a nested field without ReflectSerialize: the crate skips such a value)
+        // right before an ordinary one: a failed encoding must leave nothing behind
+        if n % 7 == 3 {
+            let bad = Unencodable { secs: 1.0, started: bevy::utils::Instant::now() };
+            match verif::reflect_to_bin(&bad, &reg) {
+                Err(_) => out.stat("reflect.unencodable.rejected"),
+                Ok(_) => out.stat("reflect.unencodable.encoded"),
+            }
+        }
         let shape = n % SHAPES;
         let (label, case) = gen_case(rng, shape);
         let id = format!("reflect-{}-{}", seed, n);
